@@ -90,6 +90,8 @@ def out_type(n):
     k = n["k"]
     if k in ("rename", "delete", "template"):
         return "TAny"
+    if k == "sweep":
+        return "TC"      # a sweep produces the collection of its element processor's outputs
     return "TF"
 
 
@@ -456,6 +458,21 @@ def corpus_cases():
     dry["rs"] = {"combine": "by_position", "max_runs": None, "dry_run": True, "blocks": [{"mode": "by_position", "context": [["tag", ["a", "b"]]]}]}
     dry["n_runs"] = 2
     out.append(dry)
+    # the same processor first swept (parameter bound by the sweep), later plain (parameter required from the
+    # context and NOT supplied): the gate must stop it although an earlier node of the same class needs nothing
+    swp = {"cls": "missing-context-key", "file": "ok", "rs": None, "trace": "yaml", "args": default_args(), "reject": None,
+           "fail_run": None, "n_runs": 1, "missing": "factor",
+           "nodes": [{"k": "src", "cfg": {"value": 1}},
+                     {"k": "sweep", "elem": "mul", "vars": [("f", ("seq", [1, 2, 3]))], "exprs": [("factor", ("var", "f"))],
+                      "mode": "combinatorial", "broadcast": False},
+                     {"k": "csum"}, {"k": "sink", "file": True, "cfg": {"path": "first.txt"}}, {"k": "mul"},
+                     {"k": "sink", "file": True, "cfg": {"path": "end.txt"}}]}
+    out.append(swp)
+    # ... and with the sweep variable read from the context (supplied), the plain node's key still missing
+    swc = copy.deepcopy(swp)
+    swc["nodes"][1]["vars"] = [("f", ("ctx", "factors"))]
+    swc["args"]["context"] = [["factors", [1, 2]]]
+    out.append(swc)
     for p in sorted(glob.glob(os.path.join(core.ROOT, "corpus", "C17", "*.json"))):
         out.append(json.load(open(p)))
     return out
